@@ -278,6 +278,13 @@ func c06Case(unit string, E uint16, phase int64, interf string) (string, *TimedC
 		tc.Steps = append(tc.Steps, TStep{At: tb + En/2, Client: 0, Cmd: r})
 		tc.Expect = []Expect{{Req: 3, Kind: "expried", Lo: En, Hi: hi, FromReq: 3}, {Req: 1, Kind: "never-expires"}}
 		tc.Horizon = tb + En/2 + En + 4*sec
+	case "relock-in-seconds":
+		// a hold taken in milliseconds is re-entered at half time with a period given in seconds (5 s)
+		r := h
+		r.Req, r.Expried, r.ExpriedFlag = 3, 5, 0
+		tc.Steps = append(tc.Steps, TStep{At: tb + En/2, Client: 0, Cmd: r})
+		tc.Expect = []Expect{{Req: 3, Kind: "expried", Lo: 5 * sec, Hi: 7 * sec, FromReq: 3}, {Req: 1, Kind: "never-expires"}}
+		tc.Horizon = tb + En/2 + 5*sec + 4*sec
 	case "update-lengthens":
 		u := h
 		u.Req, u.Flag, u.Expried = 3, 0x02, E*2+3
@@ -409,6 +416,13 @@ func c06Cases(quick bool) []EnumCase {
 			if E >= 999 {
 				add("ms", E, ph, "unlock-before")
 				add("ms", E, ph, "waiter-granted-at-expiry")
+			}
+			if E >= 999 && E <= 4999 {
+				for _, in := range []string{"relock-restarts", "update-lengthens", "update-shortens", "unlimited", "granted-after-wait", "relock-in-seconds"} {
+					n, tc := c06Case("ms", E, ph, in)
+					tc.SigSuffix = "/millisecond-hold/" + in
+					out = append(out, mkCase(n, tc))
+				}
 			}
 		}
 	}
